@@ -1,5 +1,266 @@
 package props
 
-// FAT part of C19 (timestamps and attribute flags); see c19_test.go.
+// FAT part of C19: timestamps (Chtimes) and attribute flags, observed through Stat, the
+// attribute getters and the raw directory-entry words read by the independent FAT parser.
 
-func fatAttrOp(x *fatRun, op fsOp) {}
+import (
+	"fmt"
+	"os"
+	"strings"
+	"time"
+
+	"github.com/diskfs/go-diskfs/filesystem/fat12"
+
+	"verifharness/indep"
+	"verifharness/model"
+)
+
+type fatMeta struct {
+	timesSet                          bool
+	ct, at, mt                        int64
+	hidden, system, readonly, archive bool
+	flagsSet                          map[string]bool
+}
+
+var fatMetaStore = map[*model.Node]*fatMeta{}
+
+func fatMetaOf(n *model.Node) *fatMeta {
+	m := fatMetaStore[n]
+	if m == nil {
+		m = &fatMeta{flagsSet: map[string]bool{}}
+		fatMetaStore[n] = m
+	}
+	return m
+}
+
+// rawEntries maps lower-cased paths to the raw entry the independent parser found.
+func (x *fatRun) rawEntries() map[string]indep.FATEntry {
+	rep := indep.CheckFAT(x.d, x.c.Cfg.Start, x.c.Cfg.Size, x.c.Cfg.Kind)
+	out := map[string]indep.FATEntry{}
+	for _, e := range rep.Entries {
+		out[strings.ToLower(strings.TrimPrefix(e.Path, "/"))] = e
+	}
+	return out
+}
+
+func rawKey(e indep.FATEntry) string {
+	return fmt.Sprintf("attr=%02x|crt=%04x/%04x|acc=%04x|wrt=%04x/%04x|size=%d|first=%d", e.Attr&0x27, e.CrtDate, e.CrtTime, e.AccDate, e.WrtDate, e.WrtTime, e.Size, e.First)
+}
+
+func fatAttrOp(x *fatRun, op fsOp) {
+	n := x.m.Lookup(op.P)
+	if n == nil {
+		return
+	}
+	p := x.canon(op.P)
+	before := x.rawEntries()
+	switch op.K {
+	case "chtimes":
+		mt, at, ct := op.Off, int64(op.N)*86400, int64(op.Chunk)
+		if ct < 315532800 {
+			ct += 315532800
+		}
+		if at < 315532800 {
+			at = 315532800
+		}
+		err, ok := x.call("Chtimes", func() error {
+			return x.fs.Chtimes(fsPath(p), time.Unix(ct, 0).UTC(), time.Unix(at, 0).UTC(), time.Unix(mt, 0).UTC())
+		})
+		if !ok {
+			return
+		}
+		if err != nil {
+			x.r.Class("refused:chtimes")
+			return
+		}
+		m := fatMetaOf(n)
+		m.timesSet, m.ct, m.at, m.mt = true, ct, at, mt
+		n.HasMeta = true
+	case "attr":
+		if n.Dir {
+			return
+		}
+		on := op.N == 1
+		err, ok := x.call("attribute setter", func() error {
+			if op.Q == "archive" {
+				type archiver interface{ SetArchiveBit(string, bool) error }
+				a, ok := x.fs.(archiver)
+				if !ok {
+					return fmt.Errorf("filesystem has no SetArchiveBit")
+				}
+				return a.SetArchiveBit(fsPath(p), on)
+			}
+			f, err := x.fs.OpenFile(fsPath(p), os.O_RDWR)
+			if err != nil {
+				return err
+			}
+			defer f.Close()
+			ff, ok := f.(*fat12.File)
+			if !ok {
+				return fmt.Errorf("handle is %T, not *fat12.File", f)
+			}
+			switch op.Q {
+			case "hidden":
+				return ff.SetHidden(on)
+			case "system":
+				return ff.SetSystem(on)
+			default:
+				return ff.SetReadOnly(on)
+			}
+		})
+		if !ok {
+			return
+		}
+		if err != nil {
+			x.r.Class("refused:attr")
+			return
+		}
+		m := fatMetaOf(n)
+		switch op.Q {
+		case "hidden":
+			m.hidden = on
+		case "system":
+			m.system = on
+		case "readonly":
+			m.readonly = on
+		case "archive":
+			m.archive = on
+		}
+		m.flagsSet[op.Q] = true
+		n.HasMeta = true
+	}
+	// frame condition on the raw directory entries
+	after := x.rawEntries()
+	tk := strings.ToLower(p)
+	for k, b := range before {
+		a, ok := after[k]
+		if !ok {
+			x.fail("frame-lost:"+op.K, "%s on %q: entry %q disappeared from the directory", op.K, p, k)
+			return
+		}
+		if k != tk && rawKey(a) != rawKey(b) {
+			x.fail("frame:"+op.K, "%s on %q changed another entry %q: %s -> %s", op.K, p, k, rawKey(b), rawKey(a))
+			return
+		}
+		if k == tk {
+			if a.Size != b.Size || a.First != b.First {
+				x.fail("frame-self:"+op.K, "%s on %q changed its size/first cluster: %s -> %s", op.K, p, rawKey(b), rawKey(a))
+				return
+			}
+			if op.K == "chtimes" && a.Attr&0x27 != b.Attr&0x27 {
+				x.fail("frame-self:chtimes", "Chtimes on %q changed attribute bits %02x -> %02x", p, b.Attr, a.Attr)
+				return
+			}
+			if op.K == "attr" && (a.CrtDate != b.CrtDate || a.CrtTime != b.CrtTime || a.WrtDate != b.WrtDate || a.WrtTime != b.WrtTime || a.AccDate != b.AccDate) {
+				x.fail("frame-self:attr", "setting %s on %q changed its timestamps: %s -> %s", op.Q, p, rawKey(b), rawKey(a))
+				return
+			}
+		}
+	}
+}
+
+func fatDate(t int64) uint16 {
+	u := time.Unix(t, 0).UTC()
+	return uint16((u.Year()-1980)<<9 | int(u.Month())<<5 | u.Day())
+}
+
+func fatTime(t int64) uint16 {
+	u := time.Unix(t, 0).UTC()
+	return uint16(u.Hour()<<11 | u.Minute()<<5 | u.Second()/2)
+}
+
+// checkFATMeta compares everything that was set with what the re-opened image reports.
+func (x *fatRun) checkFATMeta(label string) {
+	if x.r.Failed() {
+		return
+	}
+	raw := x.rawEntries()
+	x.m.Walk(func(p string, n *model.Node) {
+		if x.r.Failed() {
+			return
+		}
+		m := fatMetaStore[n]
+		e, ok := raw[strings.ToLower(p)]
+		if !ok {
+			return
+		}
+		if e.Dir != n.Dir {
+			x.fail("meta-kind", "%s: %q raw entry dir=%v, model dir=%v", label, p, e.Dir, n.Dir)
+			return
+		}
+		if m == nil {
+			return
+		}
+		if m.timesSet {
+			if e.WrtDate != fatDate(m.mt) || e.WrtTime != fatTime(m.mt) {
+				x.fail("meta-mtime-raw", "%s: %q modification date/time words %04x/%04x, set %04x/%04x (%s)", label, p, e.WrtDate, e.WrtTime, fatDate(m.mt), fatTime(m.mt), time.Unix(m.mt, 0).UTC())
+				return
+			}
+			if e.CrtDate != fatDate(m.ct) || e.CrtTime != fatTime(m.ct) {
+				x.fail("meta-ctime-raw", "%s: %q creation date/time words %04x/%04x, set %04x/%04x", label, p, e.CrtDate, e.CrtTime, fatDate(m.ct), fatTime(m.ct))
+				return
+			}
+			if e.AccDate != fatDate(m.at) {
+				x.fail("meta-atime-raw", "%s: %q access date word %04x, set %04x", label, p, e.AccDate, fatDate(m.at))
+				return
+			}
+			var fi os.FileInfo
+			err, okc := x.call("Stat "+p, func() error {
+				var err error
+				fi, err = x.fs.Stat(p)
+				return err
+			})
+			if !okc {
+				return
+			}
+			if err == nil {
+				want := time.Unix(m.mt-m.mt%2, 0).UTC()
+				if !fi.ModTime().Equal(want) {
+					x.fail("meta-mtime", "%s: Stat(%q).ModTime() = %v, set %v (2 s resolution)", label, p, fi.ModTime().UTC(), want)
+					return
+				}
+			}
+		}
+		for flag := range m.flagsSet {
+			var wantBit bool
+			var mask byte
+			switch flag {
+			case "hidden":
+				wantBit, mask = m.hidden, 0x02
+			case "system":
+				wantBit, mask = m.system, 0x04
+			case "readonly":
+				wantBit, mask = m.readonly, 0x01
+			case "archive":
+				wantBit, mask = m.archive, 0x20
+			}
+			if (e.Attr&mask != 0) != wantBit {
+				x.fail("meta-flag-raw:"+flag, "%s: %q attribute byte %02x: %s should be %v", label, p, e.Attr, flag, wantBit)
+				return
+			}
+		}
+		if !n.Dir && len(m.flagsSet) > 0 {
+			x.call("getters "+p, func() error {
+				f, err := x.fs.OpenFile(fsPath(p), os.O_RDONLY)
+				if err != nil {
+					return nil
+				}
+				defer f.Close()
+				ff, ok := f.(*fat12.File)
+				if !ok {
+					return nil
+				}
+				if m.flagsSet["hidden"] && ff.IsHidden() != m.hidden {
+					x.fail("meta-getter:hidden", "%s: %q IsHidden()=%v, set %v", label, p, ff.IsHidden(), m.hidden)
+				}
+				if m.flagsSet["system"] && ff.IsSystem() != m.system {
+					x.fail("meta-getter:system", "%s: %q IsSystem()=%v, set %v", label, p, ff.IsSystem(), m.system)
+				}
+				if m.flagsSet["readonly"] && ff.IsReadOnly() != m.readonly {
+					x.fail("meta-getter:readonly", "%s: %q IsReadOnly()=%v, set %v", label, p, ff.IsReadOnly(), m.readonly)
+				}
+				return nil
+			})
+		}
+	})
+}
